@@ -290,7 +290,7 @@ def check_forwarder(ctx, rule, key, fn, callee, arg_checks, wrappers=("Result::m
     return found
 
 
-def closure_paths(ctx, clo):
+def closure_paths(ctx, clo, canon=False):
     """Paths of a closure body with its captured variables replaced by the expressions the
     parent put into the closure aggregate.  `clo` = ('agg','closure',id,ops).  The closure's own
     parameters are renamed to ('cparam', i), i >= 2 (param 1 is the environment), so that they
@@ -307,16 +307,20 @@ def closure_paths(ctx, clo):
     for i in range(1, fn.argc + 1):
         mapping[("param", i)] = ("cparam", i, fn.id)
     out = []
-    for p in ctx.paths(fn):
+    for p in (ctx.cpaths(fn) if canon else ctx.paths(fn)):
         memo = {}
         ev = []
         for e in p.events:
             if e[0] == "call":
                 ev.append(("call", subst_params(e[1], mapping, memo)))
+            elif e[0] == "cond":
+                ev.append(("cond", subst_params(e[1], mapping, memo), e[2]))
             else:
                 ev.append(e)
-        out.append(Path([(subst_params(c[0], mapping, memo), c[1], c[2]) for c in p.conds], ev,
-                        subst_params(p.ret, mapping, memo) if p.ret is not None else None, p.end, p.blocks))
+        from .sym import expand_deferred
+        # a captured function value that the closure calls (`|x| f(x)` with f a closure or function item of the caller)
+        out.extend(expand_deferred(Path([(subst_params(c[0], mapping, memo), c[1], c[2]) for c in p.conds], ev,
+                                        subst_params(p.ret, mapping, memo) if p.ret is not None else None, p.end, p.blocks), ctx.F, canon))
     return out
 
 
